@@ -1,0 +1,7 @@
+//go:build verif
+
+package compact
+
+// VerifQueuePause stops future compaction cycles from doing anything (including the
+// AdjustThrottle call at their head), so a test can own the L0 write throttle.
+func (cm *Manager) VerifQueuePause() { cm.maxRuns = 0 }
